@@ -113,4 +113,10 @@ pub(crate) trait VpContract: crate::arrays::scalar::decimal::DecimalType {
 }
 impl<D: crate::arrays::scalar::decimal::DecimalType> VpContract for D {}
 
+
+pub(crate) fn stub_dberror_with_source(msg: impl Into<String>, source: Box<dyn std::error::Error + Send + Sync>) -> glaredb_error::DbError {
+    std::mem::forget(msg);
+    std::mem::forget(source);
+    unsafe { std::mem::transmute::<usize, glaredb_error::DbError>(16usize) }
+}
 include!("/verif/build/kani-gen/core_root.playback.rs");
